@@ -426,10 +426,10 @@ pub fn run(env: &mut Env) {
             days_window(env, lo, hi);
         }
         triples_years(env, std::sync::Arc::new(boundary_years()));
-        // sweeps over the whole domain: every 11th day, and 48 probe dates in every year
-        days_stride(env, 11);
+        // sweeps over the whole domain: every 3rd day, and 48 probe dates in every year
+        days_stride(env, 3);
         triples_every_year(env);
-        env.exhaustive_parts.push("C01 (quick): every 11th day number of the whole range (phase from the seed) and 48 probe dates (first / 15th / last / last+1 of every month, 28-30 February) in every year -5879612..=5879612".into());
+        env.exhaustive_parts.push("C01 (quick): every 3rd day number of the whole range (phase from the seed) and 48 probe dates (first / 15th / last / last+1 of every month, 28-30 February) in every year -5879612..=5879612".into());
         env.run_random::<Days>(1_000_000);
         env.run_random::<Triples>(1_500_000);
     }
